@@ -10,6 +10,7 @@ import argparse
 import importlib
 import json
 import os
+import re
 import sys
 import traceback
 
@@ -90,6 +91,7 @@ def main() -> int:
         if not ck.analysed and undecided:
             ck.analysed_fn(*[q for q in repo.functions if any(q.startswith(a) for a in ANCHOR_MODULES.get(pid, []))])
         hygiene.run(ck, repo)
+        undecided += [f"{pid}: {d}" if not re.match(r"C\d\d: ", d) else d for d in ck.deferred]
         code = ck.finish()
         if undecided and code == 0:
             own = undecided[0].startswith(pid + ":")
